@@ -464,10 +464,104 @@ func init() {
 		}
 		ctx.Res.Evaluations += rounds
 		ctx.Res.Histogram["uncontrolled-first-use-rounds"] += rounds
+		// child scopes asked for while others close and re-obtain them (the registry cycles of C07 under the
+		// schedule controller): every live identity keeps one object and its records
+		regCrossStream(ctx, ctx.N(80, 2000), "one_scope_per_identity")
+		// derivations that denote the asked scope itself (no new tags, an empty name), for every shard
+		// count: the scope itself must come back, one counter object, one Allocate, everything delivered
+		for _, shards := range []int{1, 2, 3, 8, 16} {
+			for _, cached := range []bool{false, true} {
+				cs := map[string]interface{}{"self_derivation": true, "shards": shards, "cached": cached}
+				ctx.Case(cs, "", "derivations-denoting-the-scope-itself", "")
+				if f := c09Self(shards, cached); f != "" {
+					ctx.Fail("one_scope_per_identity", f, cs, nil)
+				}
+			}
+		}
 		// the lock semantics the deadlock-freedom theorem is about (RWMutex with writer preference,
 		// WaitGroup.Wait), compared step by step with the toolchain's sync package
 		lkStream(ctx, ctx.N(200, 4000))
 	}
+}
+
+// c09Self: 8 goroutines first-use one counter through the root and through derivations that denote the
+// root itself; several registries per shard count (the shard of a key depends on the registry's seed).
+func c09Self(shards int, cached bool) string {
+	for round := 0; round < 12; round++ {
+		log := &Log{}
+		opts := tally.ScopeOptions{OmitCardinalityMetrics: true, Tags: map[string]string{"service": "demo"}}
+		if round%2 == 1 {
+			opts.Tags = nil
+		}
+		if cached {
+			opts.CachedReporter = &RecCached{L: log, Caps: caps{true, true}}
+		} else {
+			opts.Reporter = &RecReporter{L: log, Caps: caps{true, true}}
+		}
+		root, closer := tally.VerifNewRootScope(opts, 0, uint(shards))
+		derivs := []func() tally.Scope{
+			func() tally.Scope { return root },
+			func() tally.Scope { return root.Tagged(nil) },
+			func() tally.Scope { return root.Tagged(map[string]string{}) },
+			func() tally.Scope { return root.SubScope("") },
+			func() tally.Scope { return root.Tagged(map[string]string{}).SubScope("").Tagged(nil) },
+		}
+		if opts.Tags != nil {
+			derivs = append(derivs, func() tally.Scope { return root.Tagged(map[string]string{"service": "demo"}) })
+		}
+		const G = 8
+		ids := make([]string, G)
+		cids := make([]string, G)
+		var wg sync.WaitGroup
+		var arrived int32
+		for g := 0; g < G; g++ {
+			g := g
+			wg.Add(1)
+			go func() {
+				defer wg.Done()
+				atomic.AddInt32(&arrived, 1)
+				for atomic.LoadInt32(&arrived) < G {
+				}
+				sc := derivs[g%len(derivs)]()
+				ids[g] = tally.VerifScopeID(sc)
+				c := sc.Counter("requests")
+				cids[g] = fmt.Sprintf("%p", c)
+				c.Inc(1)
+			}()
+		}
+		if dl := waitOrDeadlock(&wg, "uber-go/tally/v4."); dl != "" {
+			return dl
+		}
+		tally.VerifReportOnce(root)
+		var sum int64
+		allocs := 0
+		for _, e := range log.Snapshot() {
+			switch e.K {
+			case 1:
+				sum += e.I[0]
+			case 21:
+				sum += e.I[1]
+			case 11:
+				allocs++
+			}
+		}
+		closer.Close()
+		for g := 1; g < G; g++ {
+			if ids[g] != ids[0] {
+				return fmt.Sprintf("%d shards: a derivation that denotes the root itself (no new tags / empty name) returned a different scope object than the root (goroutine %d of %d)", shards, g, G)
+			}
+			if cids[g] != cids[0] {
+				return fmt.Sprintf("%d shards: Counter(\"requests\") through derivations denoting one scope returned different counter objects", shards)
+			}
+		}
+		if cached && allocs != 1 {
+			return fmt.Sprintf("%d shards: AllocateCounter was called %d times for one counter identity", shards, allocs)
+		}
+		if sum != G {
+			return fmt.Sprintf("%d shards: %d increments through handles of one counter identity, %d delivered", shards, G, sum)
+		}
+	}
+	return ""
 }
 
 // c09Storm: per round G goroutines pass a spin barrier and ask one live scope for the same,
